@@ -114,7 +114,7 @@ def run(ctx):
         c = F.callee(t)
         if c and c["fn"].endswith("iter::traits::collect::Extend::extend") and ndl_root(rc, F.call_args(t)[0]) == buf:
             exts.append((bb, t))
-    ctx.require(len(exts) >= 4, "Socket::recv: expected >= 4 appends to buf, found %d" % len(exts))
+    ctx.require(len(exts) >= 2, "Socket::recv: expected appends to the result buffer before and inside the loop, found %d" % len(exts))
     takes = {bb: t for bb, t in K.calls(rc) if (F.callee(t) or {}).get("fn", "").endswith("Iterator::take")}
     n_loop = 0
     for bb, t in exts:
@@ -157,7 +157,7 @@ def run(ctx):
         else:
             ctx.bad("S-BOUND", key, loc, "append of %s inside the accumulation loop is bounded by a value that does not depend on buf.len(): recv(n) can return more than n bytes" % what if in_loop else
                     "append before the loop is not bounded by the requested size")
-    ctx.require(n_loop >= 2, "Socket::recv: loop appends not found")
+    ctx.require(n_loop >= 1, "Socket::recv: loop appends not found")
     # remainder
     for tb, t in sorted(takes.items()):
         if not any(any(a[0] == "call" and a[2] == tb for a in dep.arg_origins(rc, bb, 1)) and g.dominates(tb, bb) for bb, _ in exts):
@@ -171,15 +171,26 @@ def run(ctx):
         if not stores:
             probs.append("the remainder of a truncated message is not stored: bytes are lost")
         else:
-            # every path from the take to the loop head / return passes a store
-            if not g.all_paths_through(tb, g.returns, stores):
+            # once the message has been cut to its tail, every path to the loop head / return stores it
+            if slices and not g.all_paths_through(slices[0][0], g.returns, stores):
                 probs.append("a path after truncation does not store the remainder")
         if slices:
-            k1 = dep.tree_str(dep.expr_tree(rc, F.call_args(t)[1], 12))
-            so = dep.arg_origins(rc, slices[0][0], 1)
-            k2o = dep.arg_origins(rc, tb, 1)
-            if not ({a for a in so if a[0] in ("op", "upvar", "param")} >= {a for a in k2o if a[0] in ("op", "upvar", "param")}):
-                probs.append("the remainder is not cut at the same bound as the bytes taken")
+            # the tail kept for the next read must start exactly where the copy stopped: slice(k..) with the very
+            # value k that bounded take(k) (same definition, not merely something computed from the same inputs)
+            kid = _value_id(rc, F.call_args(t)[1])
+            sid = None
+            sop = F.call_args(slices[0][1])[1]
+            r = dep.single_def_rvalue(rc, F.op_place(sop)[0]) if F.op_place(sop) is not None and not F.op_place(sop)[1] else None
+            if r is not None and r[1][0] == "agg" and r[1][2]:
+                sid = _value_id(rc, r[1][2][0])
+                open_ended = "RangeFrom" in str(r[1][1].get("d", ""))
+            else:
+                open_ended = False
+            if sid is None or not open_ended:
+                probs.append("the remainder is not cut as slice(k..) of the truncated message")
+            elif sid != kid and not _len_of_fresh_buf(rc, g, sid, buf, exts, tb):
+                probs.append("the tail kept for the next read starts at %s but the copy stopped after %s bytes of the message: bytes in between are lost (or the slice panics)" % (
+                    dep.tree_str(dep.expr_tree(rc, r[1][2][0], 8)), dep.tree_str(dep.expr_tree(rc, F.call_args(t)[1], 8))))
         (ctx.bad if probs else ctx.ok)("S-REMAINDER", key, F.call_loc(t), "; ".join(probs) if probs else "truncation: take(k), slice(k..), stored_message = Some(rest)")
 
     # ---------------------------------------------------------------- S-FIFO
@@ -288,3 +299,44 @@ def _depends_on_buf_len(body, atoms, buf):
 def ndl_root(body, op):
     from .ndl import _root_local
     return _root_local(body, op)
+
+
+
+def _value_id(body, op):
+    """Identity of the value an operand holds: the definition site it was copied from (through plain moves/copies of
+    single-definition temporaries), or the captured variable / parameter it reads."""
+    for _ in range(12):
+        pl = F.op_place(op)
+        if pl is None:
+            return ("const", repr(F.op_const(op)))
+        if pl[1]:
+            return ("place", pl[0], repr(pl[1]))
+        l = pl[0]
+        if l <= body.argc:
+            return ("param", l)
+        r = dep.single_def_rvalue(body, l)
+        if r is not None and r[1][0] == "use" and F.op_place(r[1][1]) is not None:
+            op = r[1][1]
+            continue
+        if r is not None:
+            return ("def", l)
+        c = dep.single_def_call(body, l)
+        if c is not None:
+            return ("call", c[0])
+        return ("local", l)
+    return None
+
+
+
+def _len_of_fresh_buf(rc, g, sid, buf, exts, take_bb):
+    """slice(buf.len()..) evaluated after the append is the number of bytes just taken only when the buffer was empty
+    before that append, i.e. no other append can precede it."""
+    if not sid or sid[0] != "call":
+        return False
+    t = rc.term(sid[1])
+    if not (F.callee_key(t) or "").endswith("vec::{impl#1}::len") or ndl_root(rc, F.call_args(t)[0]) != buf:
+        return False
+    mine = [bb for bb, _t in exts if g.dominates(take_bb, bb) and g.dominates(bb, sid[1])]
+    if len(mine) != 1 or g.in_loop(mine[0]):
+        return False
+    return not any(bb != mine[0] and g.reaches(bb, mine[0]) for bb, _t in exts)
